@@ -49,10 +49,23 @@ RULE = ("runs of 0-6 groups x 1-8 scripted tests (pass / fail once / fail severa
         "(lengths at and next to the multiples of 64 / 128 / 256 / 512 / 1024, and 150..700), plain / every character needing escaping / characters needing "
         "escaping within 3 of every multiple of 64 of a randomly shifted offset; a fixed grid of every value position x lengths around which a message line "
         "crosses 256 / 512 / 1024 bytes; runs of 20-60 (thorough 200) tests and tests with 25 failures (many messages in a row); '%' and printf-like "
-        "fragments in the texts. :rawv = mutated streams with text in front of messages, read message-anywhere by both decoders.")
-ASSUMPTIONS = ["tests of a run come from the registry in order; selection only by strict name filters (no group filters, no shuffling, no separate "
-               "process; repeat and run-ignored are in the scenario); test bodies do not print "
+        "fragments in the texts. :rawv = mutated streams with text in front of messages, read message-anywhere by both decoders. "
+        "Failures that do not come from check macros: a fixed grid (each pattern in a plainly named test and in one whose name and group need escaping) of "
+        "every way to make a failure object - TestFailure(test, text), (test, file, line), (test, file, line, text), a derived class on the 3-argument and "
+        "one on the 2-argument constructor - x 0 / 1 / 3 copies x addFailure / failWith x setup / body / teardown, and from the pre / post action of a plugin; "
+        "std::exception / unknown exception in each stage, first and after another failure; setup left early (body skipped, teardown run); MockSupportPlugin with an "
+        "unmet expectation alone / after a failure of the test (not reported) / after a failure reported by a plugin action (reported); an unexpected mock call first / "
+        "after a failure (silent); MemoryLeakWarningPlugin with a leak alone / beside any other failure (not reported); a test run in a separate process whose child "
+        "exits with 0 / with 1 / is killed by a signal; ignored tests with such stages with and without -ri, two passes, name filters; printf-like what() / call names; "
+        "plus random runs of 1-3 groups x 1-3 tests with 1-5 stages of 1-3 such statements, plugins on in half of them.")
+ASSUMPTIONS = ["tests of a run come from the registry in order; selection only by strict name filters (no group filters, no shuffling; repeat, run-ignored, "
+               "separate process with scripted fork / waitpid are in the scenario); test bodies do not print "
                "(UT_PRINT text is copied raw into the stream and is outside the property)",
+               "exceptions are not rethrown (no -e: with it the exception leaves runAllTests and the stream ends without finish messages by design); plugin actions do "
+               "not throw; an expected mock call is never fulfilled and an actual call is never one that is expected (MockSupport's matching is C08's subject); the leak "
+               "plugin watches a private detector and expects no leaks",
+               "the text of a failure the library composes itself (unexpected exception, mock failure, leak report, separate process) is constrained only to carry the "
+               "scenario's pieces (what(), the call names); its wording is not compared",
                "strings are C strings (no NUL); line numbers and the duration are size_t",
                "the clock seam is scripted (the duration value is not constrained by the property, only its quoting)",
                "a service message is recognised only at the start of a line (TeamCity documentation: one message per line); in a very verbose (-vv) "
@@ -595,6 +608,9 @@ def x_grid():
         add([("S", 1), ("e", std, b"s"), ("S", 2), ("f", b"a.cpp", 12, b"skipped body"), ("S", 3), ("e", 1 - std, b"t")])
         add([("S", 0), K(2, 0, 0, b"", 0, b"pre"), ("S", 2), ("e", std, b"b"), ("S", 4), K(2, 0, 0, b"", 0, b"post")], (True, True))
     add([("S", 1), ("x", b"a.cpp", 11, b"setup fails"), ("S", 2), ("e", 1, b"never"), ("S", 3), K(2, 0, 0, b"", 0, b"teardown runs")])
+    for w in (b"%s", b"100%", b"%d%% of %s", b"%5$s|%x"):           # texts the library pastes into its own: never a format
+        add([("e", 1, w)]); add([("S", 3), ("e", 1, w)], (True, True)); add([("m", b"f" + w)], (True, False)); add([("u", b"g" + w)], (True, False))
+        add([("S", 4), K(2, 0, 0, b"", 0, w)]); add([K(6, 1, 1, b"", 0, w)])
     M = (True, False); L = (False, True); ML = (True, True)
     add([("m", b"foo")], M); add([("m", b"fo'o"), ("m", b"b[a]r")], ML); add([("S", 1), ("m", b"s"), ("S", 3), ("m", b"t")], M)
     add([("m", b"foo"), ("f", b"a.cpp", 12, b"failed")], M)                       # not reported: the test has failed
@@ -962,6 +978,14 @@ def segments(tests):
 
 
 def judge(s, obs):
+    """None or text of what is wrong with the observation of this run; an observation that cannot even be read is wrong"""
+    try:
+        return judge_obs(s, obs)
+    except (IndexError, ValueError, KeyError):
+        return "observation cannot be read"
+
+
+def judge_obs(s, obs):
     """None or text of what is wrong with the observation of this run (the property, stated over the decoded messages and the
     observed executions of test bodies)"""
     dur, filters, tests = parse_scn(s)
@@ -1055,7 +1079,7 @@ def judge(s, obs):
         # same kinds in the same order: say which name is wrong (a testFailed with a foreign name is caught by the balance above)
         for (n, a), e in zip(msgs, exp):
             if a[b"name"] != e[1]:
-                return "%s names %s instead of the test / group of the run" % (n.decode(), "another text")
+                return "%s names another text than the test / group of the run" % n.decode()
     if [(n, a[b"name"]) for n, a in msgs] != [(e[0], e[1]) for e in exp]:
         return "message sequence / names differ from the run"
     for (n, a), e in zip(msgs, exp):
@@ -1276,9 +1300,19 @@ LEVEL_TEXT = ("Machine-checked (Coq) theorems over an executable model of TeamCi
               "buffer of any capacity that keeps every character does, the one that forgets the character which finds the buffer full (255 usable bytes) is "
               "refuted with a 230-character test name; -v adds nothing, the -vv progress texts add only text (read message-anywhere the stream gives the "
               "same messages; the message-anywhere reading agrees with the strict one wherever the strict one accepts). "
+              "FAILURES NOT PRODUCED BY CHECK MACROS: the failure object is modelled with its seven members and four public constructors (plus derived classes "
+              "on the short ones, any number of copies): whatever constructor built it, the object names the test by its bare name and carries the test's place, "
+              "printFailure prints what it reads of the object, so every testFailed message names the open test; a model of the runner's stages (plugin pre-actions, "
+              "setup, body unless setup was left early, teardown, plugin post-actions, MockSupportPlugin unless the test has failed, the leak plugin unless anything "
+              "was reported; exceptions; a test run in a separate process) produces, for every test, exactly the failures a declarative reading of the scenario "
+              "demands, in order; the stream of every run of the extended scenario language parses back to balanced, faithful messages (C20_run_meets_spec); the "
+              "two-argument constructor storing the formatted name (red-team change C20-1 of round 5) is refuted by a test whose body throws and is "
+              "indistinguishable on runs failing through the long constructors; every scenario of the earlier language, embedded, is the same run. "
               "Tied to the code by a differential run of the extracted model against a real TeamCityTestOutput - observed below a printBuffer override, at the "
               "PlatformSpecificFPuts / PlatformSpecificFlush seam under the real console path, and on a redirected file descriptor 1 - driven by a real "
-              "TestRegistry::runAllTests over scripted UtestShell / IgnoredUtestShell shells that count the executions of their bodies, "
+              "TestRegistry::runAllTests over scripted UtestShell / IgnoredUtestShell shells that count the executions of their bodies, whose setup / body / teardown "
+              "build failure objects through every public constructor, throw, use mock() and leak, with the harness' own plugin, the real MockSupportPlugin and a real "
+              "MemoryLeakWarningPlugin installed and the library's separate-process path run over scripted fork / waitpid seams, "
               "judged by the extracted spec and independently by a regular-expression decoder written from the TeamCity documentation; the two decoders are "
               "also compared on mutated streams.")
 LEVEL_NOTE = ("Trusted: Coq kernel, extraction, harness, generators, the Python decoder. Modelled not verified: the C++ itself; StringFrom(size_t) is "
@@ -1286,6 +1320,8 @@ LEVEL_NOTE = ("Trusted: Coq kernel, extraction, harness, generators, the Python 
               "the wording and places of the -vv progress texts are mirrored for the build with exceptions but not judged (text outside messages is dropped "
               "from the comparison). Not covered: text printed by test bodies (copied raw into the stream), the summary / 'Test run i of n' text, the "
               "TeamCity escapes |x |l |p |0xNNNN and the single-value message form (never written; both decoders reject them), group / non-strict filters, "
-              "shuffling, reversing, separate-process runs, other TestOutput classes.")
+              "shuffling, reversing, a real child process under -p, -e (rethrown exceptions end the stream by design), throwing plugin actions, fulfilled mock "
+              "expectations, the C-interface failures of the longjmp build, other TestOutput classes. The TestFailure constructors are modelled and observed, not "
+              "translated from source; the wording of library-made failure texts is not compared.")
 TECHNIQUE = "Coq proof over hand-written executable model (writer + service-message parser round trip) + extracted-model/implementation correspondence check with an independent decoder as second judge"
 READY = True
